@@ -9,7 +9,8 @@
      isz  : size in cells (height, width) of an image (Image::size_cells with the
             terminal's pixels-per-cell)
      gimg : the image a glyph cell is rasterised to; the renderer caches by
-            (glyph, face) so the map is a function of both. *)
+            (glyph, face) so the map is a function of both.
+     fspace, ferase, erasable : how blank cells display (see the record). *)
 From Coq Require Import List NArith Bool Arith.
 Import ListNotations.
 
@@ -35,7 +36,20 @@ Definition cell_eqb (a b : cell) : bool :=
 Record oracle := mkoracle {
   cw : N -> nat;
   isz : N -> nat * nat;
-  gimg : N -> face -> N }.
+  gimg : N -> face -> N;
+  (* faces are opaque, but a blank cell does not show all of a face: [fspace f] is what a space
+     printed in face f looks like (background, and the foreground/attributes only if the face
+     underlines, strikes or reverses), [ferase f] what a cell erased under face f looks like
+     (background only), [erasable f] the renderer's own test "f has no such attributes" *)
+  fspace : face -> face;
+  ferase : face -> face;
+  erasable : face -> bool }.
+
+Definition erase_law (o : oracle) : Prop := forall f, erasable o f = true -> ferase o f = fspace o f.
+
+(* what the theorems assume about the oracle *)
+Definition oracle_ok (o : oracle) : Prop :=
+  cw o (32%N) = 1 /\ fspace o face_default = face_default /\ erase_law o.
 
 (* ---------- grids: list of rows ---------- *)
 Definition grid (A : Type) := list (list A).
